@@ -1600,6 +1600,7 @@ def run(ctx):
         from props import c09_g6
         c09_g6.run_big_stream(ctx)
         c09_g6.run_twins_stream(ctx, drv)
+        c09_g6.run_batcher_rng_stream(ctx, drv)
         rng = ctx.rng.fork(11)
         for i in range(ctx.n(3, 12)):
             cfg, b = c09_g6.gen_rerun_cfg(rng, i)
@@ -1638,6 +1639,9 @@ def replay(ctx, rep):
         elif stream == "twins":
             from props import c09_g6
             c09_g6.twins_case(ctx, drv, case.get("case", case))
+        elif stream == "batcher-rng":
+            from props import c09_g6
+            c09_g6.run_batcher_rng_stream(ctx, drv)
         elif stream == "big":
             from props import c09_g6
             c09_g6.big_batcher_case(ctx, {k: v for k, v in case.items() if k != "epoch"})
